@@ -91,7 +91,7 @@ def main():
             if steps >= 4:
                 # windows reaching the table end maximise int(e0*1000) and ke2f (spthe1/spthe2 indexing)
                 lines.append(genmon.dbd_line(table, iso, level, mode, (rng.randint(0, steps // 2) / 64.0, (steps + 8) / 64.0)))
-    exe, recs, fails = genmon.run_specs("asan", lines, chk.seed, 150 if quick else 3000, 3 if quick else 12, True, extra_env=env)
+    exe, recs, fails = genmon.run_specs("asan", lines, chk.seed, 150 if quick else 3000, 3 if quick else 12, True, extra_env=env, deep_events=10000 if quick else 1000000)
     for shard, rc, err in fails:
         report(chk, "gen_monitor", rc, err, "shard %d" % shard)
     n1 = sum(r.get("events", 0) for r in recs)
